@@ -37,10 +37,16 @@ def isHex (c : Nat) : Bool := isDigit c || (65 ≤ c && c ≤ 70) || (97 ≤ c &
 def hexVal (c : Nat) : Nat := if isDigit c then c - 48 else if c ≤ 70 then c - 55 else c - 87
 def hexDigitLower (n : Nat) : Nat := if n < 10 then 48 + n else 87 + n
 
-/-! ### UTF-8 encoding of a scalar-value string -/
+/-! ### `str.encode("utf-8", errors="surrogateescape")`
+
+A Python `str` is a list of code points: Unicode scalar values, and the lone surrogates
+U+DC80…U+DCFF by which Python carries undecodable bytes in text (`surrogateescape`), which encode
+back to the single byte 0x80…0xFF.  (Any other lone surrogate cannot be encoded at all —
+`UnicodeEncodeError` before the parser starts — and is outside what the model calls text.) -/
 
 def utf8EncodeChar (c : Nat) : Bytes :=
   if c < 128 then [c]
+  else if 56448 ≤ c ∧ c ≤ 56575 then [c - 56320]
   else if c < 2048 then [192 + c / 64, 128 + c % 64]
   else if c < 65536 then [224 + c / 4096, 128 + c / 64 % 64, 128 + c % 64]
   else [240 + c / 262144, 128 + c / 4096 % 64, 128 + c / 64 % 64, 128 + c % 64]
